@@ -1,6 +1,7 @@
 SPECIFICATION Spec
 CONSTANTS
   HistBand = TRUE
+  StrictReassign = FALSE
   MaxSteps = 4
   Rich = FALSE
   Acts = {"copy", "tr", "occ", "check_orig"}
